@@ -11,3 +11,311 @@ class UpdateExtraArgs:
 
     def modifies(self):
         return []
+
+
+# ----------------------------------------------------------------------------------------------------------------------
+# C17: what the XML-RPC commands trigger.  These entry points are NOT verified here (Starter / Stopper / strategies are
+# the subject of C03, C04, C09, C10, C14; the FSM of C02, C08): only their *effect name* is logged, so that "a rejected
+# request emits no start, stop or state change" is a predicate on the ghost effect log, and they are assumed not to raise
+# (their own exception-safety is the subject of C16; DESIGN Appendix A23 is a known counter-example for
+# Starter.start_application).  No `modifies`: anything may change.
+# ----------------------------------------------------------------------------------------------------------------------
+@contract('commander:Starter.start_applications', props=[])
+class StarterStartApplications:
+    assumed = True
+    raises = ()
+    effect = 'starter.start_applications'
+
+
+@contract('commander:Starter.start_application', props=[])
+class StarterStartApplication:
+    assumed = True
+    raises = ()
+    effect = 'starter.start_application'
+
+
+@contract('commander:Starter.start_process', props=[])
+class StarterStartProcess:
+    assumed = True
+    raises = ()
+    effect = 'starter.start_process'
+
+
+@contract('commander:Starter.get_load_requests', props=[])
+class StarterGetLoadRequests:
+    """read-only accumulation of the loads requested by the jobs in progress"""
+    assumed = True
+    raises = ()
+
+    def modifies(self):
+        return []
+
+
+@contract('commander:Commander.in_progress', props=[])
+class CommanderInProgress:
+    """read-only: 'there are still jobs planned or in progress' (the f-string of its trace call prints the job
+    objects, which is outside the modelled subset)"""
+    assumed = True
+    raises = ()
+
+    def modifies(self):
+        return []
+
+    def post_definition(self, result):
+        return result == (len(self.planned_jobs) > 0 or len(self.current_jobs) > 0)
+
+
+@contract('commander:Stopper.stop_application', props=[])
+class StopperStopApplication:
+    assumed = True
+    raises = ()
+    effect = 'stopper.stop_application'
+
+
+@contract('commander:Stopper.restart_application', props=[])
+class StopperRestartApplication:
+    assumed = True
+    raises = ()
+    effect = 'stopper.restart_application'
+
+
+@contract('commander:Stopper.stop_process', props=[])
+class StopperStopProcess:
+    assumed = True
+    raises = ()
+    effect = 'stopper.stop_process'
+
+
+@contract('commander:Stopper.restart_process', props=[])
+class StopperRestartProcess:
+    assumed = True
+    raises = ()
+    effect = 'stopper.restart_process'
+
+
+@contract('commander:Commander.next', props=[])
+class CommanderNext:
+    """triggers the planned jobs (requests are sent)"""
+    assumed = True
+    raises = ()
+    effect = 'commander.next'
+
+
+@contract('commander:StarterModel.test_start_application', props=[])
+class StarterModelTestStartApplication:
+    """prediction only (its side-effect freedom is C19)"""
+    assumed = True
+    raises = ()
+    returns = 'List[Payload]'
+    effect = 'starter_model.test_start_application'
+
+
+@contract('commander:StarterModel.test_start_processes', props=[])
+class StarterModelTestStartProcesses:
+    assumed = True
+    raises = ()
+    returns = 'List[Payload]'
+    types = {'processes': 'List[ProcessStatus]'}
+    effect = 'starter_model.test_start_processes'
+
+
+@contract('strategy:get_supvisors_instance', props=[])
+class GetSupvisorsInstance:
+    """pure choice of an instance (C14)"""
+    assumed = True
+    raises = ()
+    returns = 'Optional[str]'
+
+    def modifies():
+        return []
+
+
+@contract('strategy:conciliate_conflicts', props=[])
+class ConciliateConflicts:
+    assumed = True
+    raises = ()
+    effect = 'conciliate_conflicts'
+
+
+@contract('context:Context.find_runnable_processes', props=[])
+class FindRunnableProcesses:
+    """[process ... if re.search(rf'{regex}', process.namespec) and not process.running()]: read-only; `regex` is the
+    caller's string, so re.search raises re.error when it is not a valid pattern (Python library reference, re)"""
+    assumed = True
+    raises = ('re.error',)
+    returns = 'List[ProcessStatus]'
+
+    def modifies(self):
+        return []
+
+
+@contract('context:Context.conflicts', props=[])
+class ContextConflicts:
+    """read-only list of the conflicting processes of the managed applications (C05)"""
+    assumed = True
+    raises = ()
+    returns = 'List[ProcessStatus]'
+
+    def modifies(self):
+        return []
+
+
+@contract('supervisorupdater:SupervisorUpdater.update_numprocs', props=[])
+class UpdaterUpdateNumprocs:
+    """DESIGN C17 Assumed: 'supervisor_updater.* ... may raise RPCError/ValueError as documented' (ValueError when the
+    program does not support numprocs)"""
+    assumed = True
+    raises = ('ValueError',)
+    returns = 'Tuple[List[str], List[str]]'
+    effect = 'supervisor_updater.update_numprocs'
+
+
+@contract('supervisorupdater:SupervisorUpdater.enable_program', props=[])
+class UpdaterEnableProgram:
+    assumed = True
+    raises = ()
+    effect = 'supervisor_updater.enable_program'
+
+
+@contract('supervisorupdater:SupervisorUpdater.disable_program', props=[])
+class UpdaterDisableProgram:
+    assumed = True
+    raises = ()
+    effect = 'supervisor_updater.disable_program'
+
+
+@contract('options:SupvisorsServerOptions.get_subprocesses', props=[])
+class ServerOptionsGetSubprocesses:
+    """read-only; only called after `program_name in program_configs` has been checked and after
+    supervisor_updater.enable_program / disable_program, which are assumed not to remove program configurations
+    (otherwise KeyError)"""
+    assumed = True
+    raises = ()
+    returns = 'List[str]'
+
+    def modifies(self):
+        return []
+
+
+@contract('statemachine:FiniteStateMachine.set_state', props=[])
+class FsmSetState:
+    """the state change itself (C02 / C08 / C09): assumed not to raise"""
+    assumed = True
+    raises = ()
+    effect = 'fsm.set_state'
+
+
+@contract('statemachine:FiniteStateMachine.next', props=[])
+class FsmNext:
+    assumed = True
+    raises = ()
+    effect = 'fsm.next'
+
+
+@contract('internal_com.rpchandler:RpcHandler.send_restart_all', props=[])
+class SendRestartAll:
+    assumed = True
+    raises = ()
+    effect = 'rpc_handler.send_restart_all'
+
+    def modifies(self):
+        return []
+
+
+@contract('internal_com.rpchandler:RpcHandler.send_shutdown_all', props=[])
+class SendShutdownAll:
+    assumed = True
+    raises = ()
+    effect = 'rpc_handler.send_shutdown_all'
+
+    def modifies(self):
+        return []
+
+
+@contract('internal_com.rpchandler:RpcHandler.send_state_event', props=[])
+class SendStateEvent:
+    assumed = True
+    raises = ()
+    effect = 'rpc_handler.send_state_event'
+
+    def modifies(self):
+        return []
+
+
+@contract('internal_com.mapper:SupvisorsMapper.filter', props=[])
+class MapperFilter:
+    """read-only: the known Supvisors identifiers designated by the list (identifier, nick identifier or stereotype);
+    every element returned is a key of mapper.instances (C13/C18 verify the mapper)"""
+    assumed = True
+    raises = ()
+    types = {'identifier_list': 'List[str]'}
+
+    def modifies(self):
+        return []
+
+    def post_known(self, result):
+        return forall(int, lambda k: implies(0 <= k and k < len(result), result[k] in self.instances))
+
+
+@contract('process:ProcessStatus.possible_identifiers', props=[])
+class PossibleIdentifiers:
+    """read-only list of the identifiers where the program could be started (C04 / C14)"""
+    assumed = True
+    raises = ()
+    returns = 'List[str]'
+
+    def modifies(self):
+        return []
+
+
+@contract('statemodes:SupvisorsStateModes.publish_status', props=[])
+class PublishStatus:
+    """publication of the local state & modes to the peers and to the external listeners (transport): effect only"""
+    assumed = True
+    raises = ()
+    effect = 'state_modes.publish_status'
+
+    def modifies(self):
+        return []
+
+
+@contract('statemodes:SupvisorsStateModes.select_master', props=[])
+class SelectMaster:
+    """Master election rule (verified for C01).  Assumed here not to raise when called from end_sync: in
+    SYNCHRONIZATION the local instance is RUNNING, so there is at least one candidate (min() of an empty sequence would
+    raise ValueError; DESIGN A24: KeyError when a RUNNING peer declares a Master unknown to the local mapper)."""
+    assumed = True
+    raises = ()
+    effect = 'state_modes.select_master'
+
+    def modifies(self):
+        return [field(self.instance_state_modes[self.supvisors.mapper.local_identifier], 'master_identifier')]
+
+
+@contract('rpcinterface:RPCInterface._check_process_insertion', props=[])
+class RpcCheckProcessInsertion:
+    """post-check of update_numprocs (NOT verified: its loop collects errors in a literal list): raises only
+    RPCError(Faults.FAILED)"""
+    assumed = True
+    raises = ('RPCError',)
+
+    def modifies(self):
+        return []
+
+    def exc_RPCError_failed(self, exc):
+        return exc.code == Faults.FAILED
+
+
+@contract('rpcinterface:RPCInterface._decrease_numprocs', props=[])
+class RpcDecreaseNumprocs:
+    """second half of update_numprocs when numprocs decreases (NOT verified: list comprehension calling
+    context.get_process, filter()): stops the obsolete processes; raises only RPCError(FAILED / STILL_RUNNING).
+    The value returned (True or the deferred closure) is opaque."""
+    assumed = True
+    raises = ('RPCError',)
+    returns = 'bool'
+    types = {'namespecs': 'List[str]', 'wait': 'bool'}
+    effect = 'rpc._decrease_numprocs'
+
+    def exc_RPCError_failed(self, exc):
+        return exc.code == Faults.FAILED or exc.code == Faults.STILL_RUNNING
